@@ -689,3 +689,39 @@ def ascii_class(fn, param_index=1):
             else:
                 IN[to] = (r2, {kx: (v & r2 if isinstance(v, frozenset) else v) for kx, v in env.items()})
     return acc
+
+
+def deep_text(fn, e, depth=0, user=True, _seen=None):
+    """Like inline_text but (a) renders aggregates with their fields, (b) also expands user-named
+    locals that have exactly one definition (plain `let` bindings) and (c) goes deeper."""
+    e = strip(e)
+    if e is None:
+        return "?"
+    _seen = _seen or ()
+    k = e.get("k")
+    if k == "ref" and depth < 24 and e.get("dk") != "param":
+        nm = str(e.get("name", ""))
+        if (nm.startswith("_") or user) and e.get("id") not in _seen:
+            d = fn.single_def(e["id"])
+            if d is not None and isinstance(d, dict) and d.get("k") not in ("uninit", "param"):
+                return deep_text(fn, d, depth + 1, user, _seen + (e["id"],))
+        return nm
+    if k == "call":
+        return "%s(%s)" % ((e.get("fn") or "?").split("::<")[0] if False else (e.get("fn") or "?"), ", ".join(deep_text(fn, a, depth + 1, user, _seen) for a in e.get("a", [])))
+    if k == "agg":
+        nm = (e.get("adt") or "agg").split("::")[-1]
+        if e.get("variant"):
+            nm += "::" + str(e["variant"])
+        return "%s{%s}" % (nm, ", ".join("%s: %s" % (f.get("f"), deep_text(fn, f["e"], depth + 1, user, _seen)) for f in e.get("fields", [])))
+    if k == "un":
+        return "%s%s" % (e["op"], deep_text(fn, e["e"], depth + 1, user, _seen))
+    if k == "bin":
+        return "(%s %s %s)" % (deep_text(fn, e["l"], depth + 1, user, _seen), e["op"], deep_text(fn, e["r"], depth + 1, user, _seen))
+    if k == "mem":
+        b = deep_text(fn, e["b"], depth + 1, user, _seen)
+        return "(%s).%s" % (b, e["f"])
+    if k == "idx":
+        return "%s[%s]" % (deep_text(fn, e["b"], depth + 1, user, _seen), deep_text(fn, e.get("i") or {}, depth + 1, user, _seen))
+    if k == "cast":
+        return deep_text(fn, e["e"], depth + 1, user, _seen)
+    return show(e)
